@@ -195,6 +195,8 @@ struct SolveCfg {
   int precision = 0;    // 0 leave, else QSexact_set_precision
   int itlim = 0;        // 0 leave
   bool want_x = true, want_y = true, want_basis = false;
+  int objlim_kind = 0;  // 0 none, 1 QS_PARAM_OBJULIM, 2 QS_PARAM_OBJLLIM (the dual simplex stops with OBJ_LIMIT beyond it)
+  Q objlim;
   std::string str() const;
   Op op() const;
   static SolveCfg from_op(const Op &o);
@@ -272,7 +274,7 @@ struct GenLP {
 };
 void gen_lp(Tape &t, const GenOpts &o, GenLP &out);   // mixture of all families
 void gen_lp_family(Tape &t, const GenOpts &o, int family, GenLP &out);
-enum { F_RAND = 0, F_OPT, F_INF, F_FACE, F_UNB, F_ILL, F_CYC, F_SHAPE, F_FIXB, F_DUP, F_NFAM };
+enum { F_RAND = 0, F_OPT, F_INF, F_FACE, F_UNB, F_ILL, F_CYC, F_SHAPE, F_FIXB, F_DUP, F_COVER, F_NFAM };
 
 // ---------------------------------------------------------------- misc
 std::string read_file(const std::string &path, bool *ok = nullptr);
